@@ -21,7 +21,7 @@ fn probes_for(p: &str) -> Vec<Arc<dyn Probe>> {
         "C06" => vec![Arc::new(c06::MergeProbe)],
         "C07" => vec![Arc::new(c07::ResolveProbe)],
         "C09" => vec![Arc::new(c09::FaultProbe { max_faults: 2, meld_subsets_up_to: 8, seen: Mutex::new(HashSet::new()) })],
-        "C11" => vec![Arc::new(c11::StorageMonitor), Arc::new(c11::DamagedSourceProbe)],
+        "C11" => vec![Arc::new(c11::StorageMonitor), Arc::new(c11::DamagedSourceProbe::default())],
         "C12" => vec![Arc::new(c12::MaintenanceProbe)],
         "C13" => vec![Arc::new(c13::GraphProbe)],
         "C14" => vec![Arc::new(c14::TravelProbe)],
